@@ -184,7 +184,7 @@ class C02(Check):
                     if t and t[0] != "#":
                         for g in range(K):
                             aff[g + g * K + int(t[0]) * K * K] = float(t[1 + g])
-            rc = RunCase(directed, assort, init, K, recs, L, r=r, maxit=3 if self.tier == "quick" else 100,
+            rc = RunCase(directed, assort, init, K, recs, L, r=r, maxit=3 if self.tier == "quick" else 25,
                          nconv=10, seed=5489, aff=aff)
             lines.append(rc.line("golden_" + name))
             self.dist("golden input " + name)
